@@ -54,7 +54,7 @@ def generateIntrospectionXML(objectPath, exportedObjects):
         objectPath += '/'
     matches = []
     for path in exportedObjects.keys():
-        if path.startswith(objectPath):
+        if path.startswith(objectPath) and path != objectPath:
             path = path[len(objectPath):].partition('/')[0]
             if path not in matches:
                 matches.append(path)
